@@ -14,9 +14,10 @@
 //   end
 // steps:  K<c><B|D|A>  co_await WaitClock(clock c, BEFORE|DURING|AFTER); c = 0,1: clocks with registers, c >= 2: x/y clocks
 //         T<n>/<d>     co_await WaitFor(n/d seconds)
-//         H<mask>      co_await WaitChange over the signals whose bit is set in mask (bit i = signal i)
+//         H<i>.<j>..   co_await WaitChange over the ordered sensitivity list [signal i, signal j, ..] (repeats allowed, H- = empty)
 //         S            co_await WaitStable()
-//         R<sig>       read signal  (0 RA, 1 RA2, 2 RB, 3 C)
+//         R<sig>       read signal  (0 RA, 1 RA2, 2 RB, 3 C, 4 PA = output of pin PA = FIRST allocated signal (state offset 0),
+//                      5 Z = zero-width input (every zero-width output is at state offset 0 too), 6 C[3:0], 7 C[7:4])
 //         W<pin>=<v>   simu(pin) = v  (pin 0 = PA, 1 = PB; 8 bit)
 //         F<sid>       fork(sub-script sid); the child gets the next free pid; its handle is appended to a global table
 //         J<k>         co_await join(k-th forked process), skipped when fewer than k+1 forks happened so far
@@ -59,7 +60,7 @@ static Rat parseRat(const std::string &s) {
 }
 static std::string ratStr(const Rat &r) { return std::to_string(r.numerator()) + "/" + std::to_string(r.denominator()); }
 
-struct Step { char kind = 0; int a = 0; char ph = 'A'; Rat dur{0, 1}; int val = 0; std::string text; };
+struct Step { std::vector<int> list; char kind = 0; int a = 0; char ph = 'A'; Rat dur{0, 1}; int val = 0; std::string text; };
 using Script = std::vector<Step>;
 
 static Step parseStep(const std::string &t) {
@@ -67,7 +68,9 @@ static Step parseStep(const std::string &t) {
 	switch (s.kind) {
 		case 'K': s.a = t.at(1) - '0'; s.ph = t.at(2); break;
 		case 'T': s.dur = parseRat(t.substr(1)); break;
-		case 'H': s.a = std::stoi(t.substr(1)); break;
+		case 'H': // ordered sensitivity list, entries may repeat: H<i>.<j>...  (H- = empty list)
+			if (t != "H-") for (auto &x : split(t.substr(1), '.')) s.list.push_back(std::stoi(x));
+			break;
 		case 'S': break;
 		case 'R': s.a = std::stoi(t.substr(1)); break;
 		case 'W': { auto e = t.find('='); s.a = std::stoi(t.substr(1, e - 1)); s.val = std::stoi(t.substr(e + 1)); } break;
@@ -84,10 +87,13 @@ struct Case { std::string id; Rat fA{1, 1}, fB{1, 1}; bool two = false; std::vec
 struct Sim : public sim::ReferenceSimulator {
 	Sim() : sim::ReferenceSimulator(false) {}
 	bool readOnly() const { return m_readOnlyMode; }
+	long long offsetOf(const hlim::NodePort &np) { auto it = m_program.m_stateMapping.outputToOffset.find(np); return it == m_program.m_stateMapping.outputToOffset.end() ? -1 : (long long)it->second; }
 	using sim::ReferenceSimulator::addCallbacks;
 };
 
 static const char PH[3] = {'B', 'D', 'A'};
+static bool g_offsetsPrinted = false;
+static std::ostream *g_meta = nullptr;
 
 struct Ctx : public sim::SimulatorCallbacks {
 	const Case *cs = nullptr;
@@ -98,6 +104,7 @@ struct Ctx : public sim::SimulatorCallbacks {
 	std::vector<hlim::NodePort> sigs;       // RA RA2 RB C
 	std::optional<UInt> pins[2];
 	std::vector<OutputPins> outs;
+	hlim::NodePort pinA, pinZ;
 	int nextPid = 0;
 	std::vector<SimProcess::Handle> forked; // global fork table
 
@@ -154,8 +161,8 @@ static SimFunction<int> doStep(Ctx *cx, int pid, Step st)
 			break;
 		case 'H': {
 			sim::SensitivityList sl;
-			for (int i = 0; i < 4; i++) if (st.a & (1 << i)) sl.add(cx->sigs[i]);
-			auto watched = [&]() { std::string r = "V"; for (int i = 0; i < 4; i++) if (st.a & (1 << i)) r += " " + cx->fmt(simu(cx->outs[i]).eval()); return r; };
+			for (int i : st.list) sl.add(cx->sigs.at(i));
+			auto watched = [&]() { std::string r = "V"; for (int i : st.list) r += " " + cx->val(cx->sigs.at(i)); return r; };
 			cx->log(pid, "susp " + st.text);
 			cx->log(pid, watched());          // what the SignalWatch snapshots
 			co_await sim::WaitChange(sl);
@@ -169,7 +176,7 @@ static SimFunction<int> doStep(Ctx *cx, int pid, Step st)
 			break;
 		case 'R': {
 			// the frontend read path: simu(outputPin).eval() -> SimulationContext::getSignal -> simProcGetValueOfOutput
-			auto val = cx->fmt(simu(cx->outs[st.a]).eval());
+			auto val = st.a < 4 ? cx->fmt(simu(cx->outs[st.a]).eval()) : cx->val(cx->sigs.at(st.a));
 			cx->log(pid, "R" + std::to_string(st.a) + "=" + val);
 		} break;
 		case 'W':
@@ -254,8 +261,12 @@ static void runCase(const Case &cs, bool fiberMode, std::ostream &out)
 		UInt ra, ra2, rb, c;
 		{
 			ClockScope s(ca);
-			UInt pa = pinIn(8_b).setName("pa"); cx.pins[0] = pa;
+			// declare-use-bind idiom (as tests/frontend/simulationProcess.cpp SimProc_AsyncProcs): makes the output of pin PA the
+			// FIRST signal that Program::allocateSignals places, i.e. the one at simulator state offset 0
+			UInt pa = 8_b; HCL_NAMED(pa);
 			ra = reg(pa); ra2 = reg(ra); c = pa ^ ra;
+			auto pinA = pinIn(8_b).setName("pinA"); pa = pinA; cx.pins[0] = pa; cx.pinA = hlim::NodePort{pinA.node(), 0};
+			auto pinZ = pinIn(0_b).setName("z"); cx.pinZ = hlim::NodePort{pinZ.node(), 0};     // zero-width signal (state offset 0 as well)
 			cx.outs.push_back(pinOut(ra).setName("ra"));
 			cx.outs.push_back(pinOut(ra2).setName("ra2"));
 		}
@@ -268,6 +279,8 @@ static void runCase(const Case &cs, bool fiberMode, std::ostream &out)
 		{
 			ClockScope s(ca);
 			cx.outs.push_back(pinOut(c).setName("c"));
+			cx.outs.push_back(pinOut(c(0, 4_b)).setName("clo"));   // two slices of one vector
+			cx.outs.push_back(pinOut(c(4, 4_b)).setName("chi"));
 		}
 	}
 	for (size_t i = 0; i < cs.extra.size(); i++) {
@@ -278,7 +291,10 @@ static void runCase(const Case &cs, bool fiberMode, std::ostream &out)
 			cx.extra.emplace_back(ClockConfig{.absoluteFrequency = x.f, .name = "x" + std::to_string(i), .resetType = ClockConfig::ResetType::NONE});
 	}
 	design.postprocess();
-	for (auto &o : cx.outs) cx.sigs.push_back(o.node()->getDriver(0));
+	// watchable / readable signals: 0 RA 1 RA2 2 RB 3 C | 4 PA (pin output, first allocated) 5 Z (zero width) 6 C[3:0] 7 C[7:4]
+	for (size_t i = 0; i < 4; i++) cx.sigs.push_back(cx.outs[i].node()->getDriver(0));
+	cx.sigs.push_back(cx.pinA); cx.sigs.push_back(cx.pinZ);
+	cx.sigs.push_back(cx.outs[4].node()->getDriver(0)); cx.sigs.push_back(cx.outs[5].node()->getDriver(0));
 
 	{
 		Sim sim; cx.sim = &sim;
@@ -294,6 +310,10 @@ static void runCase(const Case &cs, bool fiberMode, std::ostream &out)
 		}
 		try {
 			sim.compileProgram(design.getCircuit());
+			if (!g_offsetsPrinted) {   // once per file: where do PA and Z live in the simulator state?
+				g_offsetsPrinted = true;
+				*g_meta << "# offsets pa=" << sim.offsetOf(cx.pinA) << " z=" << sim.offsetOf(cx.pinZ) << "\n";
+			}
 			sim.powerOn();
 			sim.advance(cs.until);
 		} catch (const std::exception &e) {
@@ -312,6 +332,7 @@ int main(int argc, char **argv)
 	std::ifstream in(argv[2]);
 	if (!in) { fprintf(stderr, "cannot read %s\n", argv[2]); return 2; }
 	std::ofstream out(argv[3]);
+	std::ostringstream meta; g_meta = &meta;
 	std::string line; Case cs; bool open = false;
 	while (std::getline(in, line)) {
 		auto tok = split(line);
@@ -328,5 +349,6 @@ int main(int argc, char **argv)
 			out << "X harness: " << std::string(e.what()).substr(0, 200) << "\nend\n"; open = false;
 		}
 	}
+	out << meta.str();
 	return 0;
 }
